@@ -14,7 +14,9 @@ refinement of the contract automaton — are stated):
 * `state_set_parameter_generated`: the method refuses on an initialised encoder and otherwise is the free
   function on `self.params` — the model's `setParameter`;
 * `sanitize_generated`, `compute_lg_block_generated` (every parameter structure), `encode_window_bits_generated`
-  (8 <= lgwin < 64, both header forms).
+  (8 <= lgwin < 64, both header forms);
+* `update_size_hint_generated` (+ `unprocessed_input_size`): the whole encoder state afterwards is the state before with
+  `params.size_hint` replaced by the model's `sizeHintTotal` of (`wsub64 input_pos_ last_processed_pos_`, `available_in`).
 -/
 import BV.Gen.FnC20
 import BV.Model.Stream
@@ -308,8 +310,40 @@ theorem encode_window_bits_generated (lgwin : Nat) (h8 : 8 ≤ lgwin) (h : lgwin
   simp only [e8] at e
   exact e
 
+/-- `update_size_hint` (+ `unprocessed_input_size`): the whole generated encoder state afterwards is the state before with
+`params.size_hint` replaced by what the stream model stores -/
+theorem update_size_hint_generated (g : BrotliEncoderStateStruct) (a : Nat) (hl : g.last_processed_pos_ < 2 ^ 64) :
+    update_size_hint g a = { g with params := { g.params with
+      size_hint := if g.params.size_hint = 0 then sizeHintTotal (wsub64 g.input_pos_ g.last_processed_pos_) a
+                   else g.params.size_hint } } := by
+  have h64 : (2 : Nat) ^ 64 = 18446744073709551616 := by decide
+  rw [h64] at hl
+  unfold update_size_hint unprocessed_input_size sizeHintTotal wsub64 two64
+  have elim : ((1 <<< (30 % 32)) % 4294967296) = 1073741824 := by decide
+  rw [elim, Nat.mod_eq_of_lt hl]
+  by_cases h0 : g.params.size_hint = 0
+  · have d0 : (g.params.size_hint == 0) = true := by simpa using h0
+    simp only [d0, if_true]
+    rw [if_pos h0]
+    by_cases hc : (g.input_pos_ + 18446744073709551616 - g.last_processed_pos_) % 18446744073709551616 ≥ 1073741824 ∨ a ≥ 1073741824 ∨
+        ((g.input_pos_ + 18446744073709551616 - g.last_processed_pos_) % 18446744073709551616 + a) % 18446744073709551616 ≥ 1073741824
+    · have dc : (((decide ((g.input_pos_ + 18446744073709551616 - g.last_processed_pos_) % 18446744073709551616 ≥ 1073741824)) || (decide (a ≥ 1073741824))) || (decide (((g.input_pos_ + 18446744073709551616 - g.last_processed_pos_) % 18446744073709551616 + a) % 18446744073709551616 ≥ 1073741824))) = true := by
+        simp only [Bool.or_eq_true, decide_eq_true_eq, or_assoc]; exact hc
+      simp only [dc, if_true, if_pos hc]
+    · have dc : (((decide ((g.input_pos_ + 18446744073709551616 - g.last_processed_pos_) % 18446744073709551616 ≥ 1073741824)) || (decide (a ≥ 1073741824))) || (decide (((g.input_pos_ + 18446744073709551616 - g.last_processed_pos_) % 18446744073709551616 + a) % 18446744073709551616 ≥ 1073741824))) = false := by
+        rw [Bool.eq_false_iff]; intro hh
+        simp only [Bool.or_eq_true, decide_eq_true_eq, or_assoc] at hh; exact hc hh
+      simp only [dc, if_false, Bool.false_eq_true, if_neg hc]
+      have e : ((g.input_pos_ + 18446744073709551616 - g.last_processed_pos_) % 18446744073709551616 + a) % 18446744073709551616 % 4294967296
+          = (g.input_pos_ + 18446744073709551616 - g.last_processed_pos_) % 18446744073709551616 + a := by omega
+      rw [e]
+  · have d0 : (g.params.size_hint == 0) = false := by simpa using h0
+    simp only [d0, if_false, Bool.false_eq_true]
+    rw [if_neg h0]
+
 example : (set_parameter default 1 5).2.quality = 5 := by decide
 example : set_parameter default 4 2 = (false, default) := by decide
+example : (update_size_hint { (default : BrotliEncoderStateStruct) with input_pos_ := 100, last_processed_pos_ := 40 } 5).params.size_hint = 65 := by decide
 example : (set_parameter default 167 1).2.use_dictionary = false := by decide
 example : (state_set_parameter { (default : BrotliEncoderStateStruct) with is_initialized_ := true } 1 5).1 = false := by decide
 
